@@ -787,7 +787,15 @@ func (tm *tcpModel) Key() (string, []int) {
 	for u, mm := range tm.m.connsIPv4 {
 		for k, pc := range mm {
 			pc.mu.Lock()
-			ik = append(ik, fmt.Sprintf("%s/%s streams=%d", u, k, len(pc.conns)))
+			// what sits in the write buffers is state of the implementation that decides what a client will read later
+			var bufs []string
+			for addr, cn := range pc.conns {
+				if bc, ok := cn.(*bufferedConn); ok {
+					bufs = append(bufs, fmt.Sprintf("%s:%d/%d", addr, bc.buf.Count(), bc.buf.Size()))
+				}
+			}
+			sort.Strings(bufs)
+			ik = append(ik, fmt.Sprintf("%s/%s streams=%d wbuf=%v", u, k, len(pc.conns), bufs))
 			pc.mu.Unlock()
 		}
 	}
